@@ -9,3 +9,7 @@ func queryEncode(param string, m restlicodec.Marshaler) (string, error) {
 		return m.MarshalRestLi(kw(param))
 	})
 }
+
+func queryReadRecord(q restlicodec.QueryParamsReader, required []string, f restlicodec.MapReader) error {
+	return q.ReadRecord(restlicodec.NewRequiredFields().Add(required...), f)
+}
